@@ -293,6 +293,11 @@ class Gen:
             ps = ", ".join(f"{t} a{k}" for k in range(n))
             out.append(f"function wide({ps}) -> {t} {{\n  return ((a0 + a{n - 1}) + a{n // 2});\n}}\n")
         self.wide = wide
+        if r.random() < 0.06:
+            # recursion far deeper than the interpreter allows: ends in the same RecursionError in
+            # every process of the unchanged tree (the margin to the ~495-level limit is large)
+            out.append("function rec(int n) -> int {\n  if ((n <= 0)) {\n    return 0;\n  }\n  return (n + rec((n - 1)));\n}\n")
+            out.append(f"export function deep{r.randint(0, 9)}() -> int {{\n  return rec({r.choice([700, 900, 1500])});\n}}\n")
         names = r.sample(["main", "shade", "f", "g_", "eval", "kernel", "step", "blend", "k2", "Fn"], r.randint(1, 5))
         size = r.random()
         if size < 0.04:
